@@ -69,9 +69,6 @@ def execute(plan):
     s = {}
     stack = []      # (task, substitution before)
 
-    def state_matches(sub):
-        return pool.observe_all() == pool.model_all(sub)
-
     try:
         for op in plan['ops']:
             if op[0] == 'NEWVAR':
@@ -88,12 +85,11 @@ def execute(plan):
                 if op[1] == 'resume' and out[1] != 0:
                     log.violation('yields-twice', {'extra_yields': out[1]})
                     break
+                # The model pops too.  Whether the engine really undid the bindings is not judged
+                # here (that is C03's clause); but every later unification is started "under the stack
+                # of still active bindings" the consumer holds, so a binding that was not undone - or
+                # an alias that was lost - shows as a wrong outcome or a non-most-general result there.
                 s = s_before
-                if not state_matches(s):
-                    # restoration is C03's subject; C02 cannot go on from an unknown state
-                    log.count('precondition_lost_after_pop')
-                    log.ev('precondition-lost')
-                    break
             elif op[0] == 'PUSH':
                 if len(stack) >= plan.get('max_depth', 6):
                     log.ev('push-noop')
@@ -123,10 +119,6 @@ def execute(plan):
                     ok = tt.step()
                     trial = (ok, pool.observe_all())
                     tt.close()
-                    if not state_matches(s):
-                        log.count('precondition_lost_after_trial')
-                        log.ev('precondition-lost')
-                        break
                 e1, e2 = pool.build(t1), pool.build(t2)
                 task = GenTask(unify(e1, e2))
                 ok = task.step()
